@@ -321,6 +321,39 @@ def data_identity(run):
     check("from_pandas", dx.from_pandas(v1, npartitions=2), dx.from_pandas(v2, npartitions=2))
     check("from_pandas/same-index", dx.from_pandas(v1, npartitions=2), dx.from_pandas(v1.assign(b=v1.b + 1), npartitions=2))
     check("from_array", dx.from_array(np.arange(8).reshape(4, 2), columns=["x", "y"]), dx.from_array(np.arange(8).reshape(4, 2) + 1, columns=["x", "y"]))
+    # a frame / series that is a zero-copy view of a caller-owned array (pd.DataFrame(arr, copy=False)): the caller
+    # re-uses its buffer after from_pandas(); the name given to the collection keeps denoting the values it was built from
+    # (seed C08_7: copy-on-write does not protect a buffer pandas never owned)
+    for kind in ("frame", "series", "frame/sort=False"):
+        label = f"from_pandas/zero-copy-view-of-caller-array/{kind}"
+        try:
+            original = np.arange(16, dtype="float64").reshape(8, 2)
+
+            def wrap(values, kind=kind):
+                if kind == "series":
+                    return pd.Series(values[:, 0], name="a", copy=False)
+                return pd.DataFrame(values, columns=["a", "b"], copy=False)
+
+            kw = {"sort": False} if kind.endswith("sort=False") else {}
+            buf = original.copy()
+            q1 = dx.from_pandas(wrap(buf), npartitions=2, **kw)
+            name1 = q1._name
+            buf[:] = -1.0  # the caller goes on with its own array
+            q2 = dx.from_pandas(wrap(original.copy()), npartitions=2, **kw)  # equal-looking data with the ORIGINAL values
+            q3 = dx.from_pandas(wrap(buf.copy()), npartitions=2, **kw)  # the new content of the buffer
+            check(label + "/old-vs-new-content", q2, q3)
+            run.count("C08.R.data:name-keeps-denoting-its-data", 1, label, rule="from_pandas on a zero-copy view of a caller-owned array; the array is overwritten afterwards; collections built before and after")
+            if q3._name == name1:
+                run.violation("C08.R.data:different-data-share-a-name", label, f"the collection built from the overwritten buffer is named like the one built before the write: {name1}", {"kind": "none"})
+            else:
+                want, new = wrap(original.copy()), wrap(np.full_like(original, -1.0))
+                for what, coll, exp in (("built before the write", q1, want), ("rebuilt from the original values", q2, want), ("built from the new content", q3, new)):
+                    got = coll.compute()
+                    if not got.equals(exp):
+                        run.violation("C08.R.data:name-denotes-other-data", f"{label}/{what}", f"{coll._name} computes {np.asarray(got).ravel()[:4].tolist()}.. expected {np.asarray(exp).ravel()[:4].tolist()}..", {"kind": "none"})
+                        break
+        except Exception as ex:
+            run.notes.append(f"zero-copy case {kind} not evaluated: {type(ex).__name__}: {str(ex)[:100]}")
     # imported graphs (persist / legacy import path): same keys, meta, divisions, prefix - different layer
     from dask_expr._collection import from_graph
 
